@@ -48,8 +48,17 @@ package transaction
 // how many configuration status writes had been issued when the last transaction status write was issued
 //@ ghost v3LastTxnWriteAtCfgWrites int
 //@ spec v3PhasesPresent(t *configapi.Transaction) bool = t.Status.Change.Commit != nil && t.Status.Change.Apply != nil && t.Status.Rollback.Commit != nil && t.Status.Rollback.Apply != nil && t.Status.Change.Commit != t.Status.Change.Apply && t.Status.Change.Commit != t.Status.Rollback.Commit && t.Status.Change.Commit != t.Status.Rollback.Apply && t.Status.Change.Apply != t.Status.Rollback.Commit && t.Status.Change.Apply != t.Status.Rollback.Apply && t.Status.Rollback.Commit != t.Status.Rollback.Apply
+// what the last read of a transaction showed (ghost copies for the clauses that speak about the previous transaction)
+//@ ghost v3LastTxnGetOK bool
+//@ ghost v3LastReadIndex int
+//@ ghost v3LastReadChangeCommit int
+//@ ghost v3LastReadChangeApply int
+//@ ghost v3LastReadRollbackCommit int
+//@ ghost v3LastReadRollbackApply int
 //@ iface Store.Get(ctx, id) (t, err)
-//@   modifies nothing
+//@   modifies v3LastTxnGetOK, v3LastReadIndex, v3LastReadChangeCommit, v3LastReadChangeApply, v3LastReadRollbackCommit, v3LastReadRollbackApply
+//@   ensures v3LastTxnGetOK == (err == nil) && v3LastReadIndex == id.Index
+//@   ensures err == nil ==> v3LastReadChangeCommit == t.Status.Change.Commit.State && v3LastReadChangeApply == t.Status.Change.Apply.State && v3LastReadRollbackCommit == t.Status.Rollback.Commit.State && v3LastReadRollbackApply == t.Status.Rollback.Apply.State
 //@   ensures err != nil ==> t == nil
 //@   ensures err == nil ==> t != nil && fresh(t) && v3PhasesPresent(t) && fresh(t.Status.Change.Commit) && fresh(t.Status.Change.Apply) && fresh(t.Status.Rollback.Commit) && fresh(t.Status.Rollback.Apply)
 //@   ensures errWF(err)
